@@ -247,3 +247,36 @@ def solve_terminates(h):
     h.set_summaries({(A, 'AbstractSolver.Step'): step})
     h.call(h.getattr(s, '_Solve'), None, None, disp=False)
     h.cover('returned')
+
+
+def _de_process_inputs(h, cls):
+    """the DE control parameters given as keywords are sticky and taken as given -- for EVERY real value including 0 --
+    and kept when not given; the mutation strategy is handed back in the settings and remembered by name"""
+    if not h.is_sym():
+        h.unsupported('symbolic only')
+    given = h.choice('keywords', [(), ('CrossProbability',), ('ScalingFactor',), ('CrossProbability', 'ScalingFactor', 'callback')])
+    cr0, f0 = h.real('probability_before'), h.real('scale_before')
+    cr, f = h.real('CrossProbability'), h.real('ScalingFactor')
+    s = h.obj(cls, probability=cr0, scale=f0, strategy='Best1Bin')
+    vals = {}
+    if 'CrossProbability' in given:
+        vals['CrossProbability'] = cr
+    if 'ScalingFactor' in given:
+        vals['ScalingFactor'] = f
+    cb = h.fn('CALLBACK', ret='none')
+    if 'callback' in given:
+        vals['callback'] = cb
+    kw = h.st.alloc('dict', dict(vals))
+    r = h.call(h.getattr(s, '_process_inputs'), kw)
+    h.check('crossover-probability-as-given-else-kept', 'p == want', p=h.field(s, 'probability'), want=cr if 'CrossProbability' in given else cr0)
+    h.check('scaling-factor-as-given-else-kept', 'p == want', p=h.field(s, 'scale'), want=f if 'ScalingFactor' in given else f0)
+    cell = h.st.heap[r]
+    h.check('callback-handed-back-and-a-strategy-selected', 'ok',
+            ok=(cell.get('callback') is (cb if 'callback' in given else None)) and 'strategy' in cell and h.field(s, 'strategy') == 'Best1Bin')
+
+
+DEF = 'mystic/differential_evolution.py::'
+contract('C08/DE1._process_inputs', ['C08', 'C07'], DEF + 'DifferentialEvolutionSolver._process_inputs', native=False)(
+    lambda h: _de_process_inputs(h, DEF + 'DifferentialEvolutionSolver'))
+contract('C08/DE2._process_inputs', ['C08', 'C07'], DEF + 'DifferentialEvolutionSolver2._process_inputs', native=False)(
+    lambda h: _de_process_inputs(h, DEF + 'DifferentialEvolutionSolver2'))
